@@ -245,7 +245,8 @@ func unmarshalFloat(data []byte, bitSize int) (protoreflect.Value, error) {
 }
 
 func quote(raw []byte) []byte {
-	if len(raw) > 0 && (raw[0] != '"' || raw[len(raw)-1] != '"') {
+	// (An empty value is the empty string, not a missing JSON document.)
+	if len(raw) < 2 || raw[0] != '"' || raw[len(raw)-1] != '"' {
 		raw = strconv.AppendQuote(raw[:0], string(raw))
 	}
 	return raw
